@@ -313,3 +313,31 @@ func genTag(r *prng.Rng) int {
 	}
 	return 1 + r.Intn(1<<29-1)
 }
+
+// bigPackedLists yields, for a packed kind, lists of n equal elements of the kind's widest and narrowest encodings
+// with n chosen so that the payload lands just below, on and just above 16384 bytes — where the length
+// prefix grows from two bytes to three.
+func bigPackedLists(k kind, r *prng.Rng, yield func(v wval)) {
+	var wide uint64
+	for d := 0; d < 16; d++ {
+		for _, u := range k.gen(r).us {
+			if u > wide {
+				wide = u
+			}
+		}
+	}
+	for _, elem := range []uint64{wide, 1} {
+		one := k.size(wval{us: []uint64{elem}}) - 1 // payload of a one-element list (its length prefix is one byte)
+		if one <= 0 {
+			continue
+		}
+		for _, total := range []int{16383, 16384, 16385} {
+			n := (total + one - 1) / one
+			us := make([]uint64, n)
+			for i := range us {
+				us[i] = elem
+			}
+			yield(wval{us: us})
+		}
+	}
+}
